@@ -1,7 +1,7 @@
 (* C16 - WorkerPool conserves tasks and always shuts down. Statements only.
    Model: Verif.C16_Pool.Model (interleaving system; `pinned` = code as pinned, `repaired` = code after the fix: commits). *)
 From Coq Require Import List ZArith Bool Permutation.
-From Verif.C16_Pool Require Import Model Inv Proofs Runs Refute Live Term Measure Group GroupProofs Options OptionsProofs Waiters WaitersProofs WaitersLive.
+From Verif.C16_Pool Require Import Model Inv Proofs Runs Refute Live Term Measure Group GroupProofs Options OptionsProofs Waiters WaitersProofs WaitersLive GroupConc GroupConcProofs.
 Import ListNotations.
 
 (* Every variant (pinned and repaired), every worker count >= 1, cancel on/off, every task program (nested submits), every
@@ -124,6 +124,55 @@ Example C16_group_nonvacuous :
   (exists f, grun [] (histG ++ [GSet 5 0; GUpdate 2 (-2)])%Z = Some f /\ map nval f = [0; 0; 0; 0; 0; 0]%Z /\
              wait_children_returns f 0 = true /\ wait_parents_returns f 4 = true).
 Proof. split; eexists; vm_compute; repeat split; reflexivity. Qed.
+
+(* Group waits against CONCURRENT counter changes (round 4; model GroupConc.v: every level of a chain pool -> group -> ... ->
+   root is its own step - Lock the counter, write, call the subscriber, which updates the parent while the child's valueMutex
+   is still held; unlocks inner-most first on return - any number of threads with any programs of Update/Set calls on pool
+   counters (Submit = +1, task completion = -1), observers reading any counter whose valueMutex is free at any moment).
+   For EVERY schedule and every reachable state s:
+   - the linearised forest `absf s` (counters written by chains still on their way up put back) is exactly the result of the
+     ATOMIC model of Group.v on the history followed by the linearisation `lin` of the schedule (one `GSet pool value` per chain,
+     at the step in which the chain reaches its top - between the call and its return), so C16_group applies to it;
+   - every counter that an observer can read (valueMutex free) shows its linearised value;
+   - hence: when an observer (WaitChildren / WaitParents / Group.Shutdown = WaitIsZero, IsZero-style Get) reads ZERO from group
+     g, every pool below g, at any depth, is idle in the linearised forest, and has pending = 0 in the raw state as well
+     unless an Update/Set call on that pool is still on its way up (a Submit that has not returned yet: the task is not accepted). *)
+Theorem C16_group_wait_sound : forall ops0 f0 progs sched s g,
+  grun [] ops0 = Some f0 -> crun false (cinit f0 progs) sched = Some s ->
+  is_kind KGroup (cf s) g = true -> reads_zero s g = true ->
+  grun [] (ops0 ++ lin false (cinit f0 progs) sched) = Some (absf s) /\
+  (forall i, is_kind KPool (cf s) i = true -> below (cf s) i g ->
+     gval (absf s) i = 0%Z /\ (in_flight s i = false -> gval (cf s) i = 0%Z)) /\
+  (forall j, held s j = false -> gval (cf s) j = gval (absf s) j).
+Proof. exact group_wait_sound. Qed.
+
+(* the refinement itself, from any state satisfying the invariant (any number of chains in progress) *)
+Theorem C16_group_chains_linearise : forall sched s0 s, CInv s0 -> crun false s0 sched = Some s ->
+  CInv s /\ grun (absf s0) (lin false s0 sched) = Some (absf s).
+Proof. exact conc_refines. Qed.
+
+(* the variant that releases the valueMutex BEFORE calling the subscribers (class of seed C16-m10) is refuted: root 0 > group 1
+   > pool 2, two submitters; thread 0 publishes pool 0 -> 1 and is delayed before Increase() of group 1; thread 1's Submit
+   (1 -> 2, no subscriber call) has RETURNED (thread state TDown [] with an empty program); nobody holds anything, no chain
+   through the pool is in flight in the sense above, the pool shows 2 pending tasks - and observers read zero from the root
+   and from group 1: WaitChildren returns. *)
+Theorem C16_group_wait_refuted_unlock_first :
+  exists s, grun [] [GNewGroup; GCreateGroup 0; GCreatePool 1] = Some refF0 /\
+    crun true (cinit refF0 refProgs) refSched = Some s /\
+    is_kind KGroup (cf s) 0 = true /\ reads_zero s 0 = true /\ reads_zero s 1 = true /\
+    is_kind KPool (cf s) 2 = true /\ below (cf s) 2 0 /\
+    in_flight s 2 = false /\ held s 2 = false /\ gval (cf s) 2 = 2%Z /\
+    nth_error (thrs s) 1 = Some (mkThr (TDown []) []).
+Proof. exact group_wait_refuted_unlock_first. Qed.
+
+(* non-vacuity of C16_group_wait_sound: in the middle of thread 0's chain (pool and group 1 written, both held) the root is
+   readable and zero, the chain is in flight, the linearised forest is all zero and nothing is linearised yet; and the
+   refuting schedule is not even enabled on the code as it is (thread 1 blocks on the pool's valueMutex). *)
+Example C16_group_wait_sound_nonvacuous :
+  (exists s, crun false (cinit refF0 refProgs) [0; 0; 0] = Some s /\ map nval (cf s) = [0; 1; 1]%Z /\ reads_zero s 0 = true /\
+    in_flight s 2 = true /\ map nval (absf s) = [0; 0; 0]%Z /\ lin false (cinit refF0 refProgs) [0; 0; 0] = []) /\
+    crun false (cinit refF0 refProgs) refSched = None.
+Proof. split. exact group_wait_sound_nonvacuous. exact (proj1 group_wait_sound_same_schedule). Qed.
 
 (* Option surface (workerpool.go: WithWorkerCount, WithPanicOnSubmitAfterShutdown, WithCancelPendingTasksOnShutdown; model
    Options.v).  The parameters `nw` and `cancel` of the pool theorems above are the EFFECTIVE option values: New applies the
@@ -270,6 +319,9 @@ Print Assumptions C16_shutdown_terminates.
 Print Assumptions C16_shutdown_progress.
 Print Assumptions C16_shutdown_completes.
 Print Assumptions C16_group.
+Print Assumptions C16_group_wait_sound.
+Print Assumptions C16_group_chains_linearise.
+Print Assumptions C16_group_wait_refuted_unlock_first.
 Print Assumptions C16_group_pool_options.
 Print Assumptions C16_group_pool_default.
 Print Assumptions C16_pool_options_resolved.
